@@ -42,6 +42,110 @@ Proof.
   intros k t [].
 Qed.
 
+(* sorted(surfs.items()) is a permutation *)
+Lemma kinsert_perm {A} (p : Z * A) l : Permutation (kinsert p l) (p :: l).
+Proof.
+  induction l as [|q r IH]; simpl; [reflexivity|].
+  destruct (fst p <=? fst q)%Z; [reflexivity|].
+  eapply Permutation_trans; [apply perm_skip; exact IH|]. apply perm_swap.
+Qed.
+
+Lemma ksort_perm {A} (l : list (Z * A)) : Permutation (ksort l) l.
+Proof.
+  induction l as [|p r IH]; simpl; [reflexivity|].
+  eapply Permutation_trans; [apply kinsert_perm|]. apply perm_skip. exact IH.
+Qed.
+
+(* what the renumbering relates: a surface to itself (it was kept) or to an earlier kept
+   surface it is equal to; every processed key gets an entry *)
+Definition ren_rel (L news : stable E) (k t : Z) : Prop :=
+  exists sk st, In (k, sk) L /\ In (t, st) news /\
+    (eeqb (s_eq sk) (s_eq st) = true \/ (t = k /\ st = sk)).
+
+Lemma dedup_go_rel (L : stable E) l : forall news ren news' ren',
+  (forall p, In p l -> In p L) -> (forall p, In p news -> In p L) ->
+  (forall k t, In (k, t) ren -> ren_rel L news k t) ->
+  dedup_go eeqb l news ren = (news', ren') ->
+  (forall k t, In (k, t) ren' -> ren_rel L news' k t) /\
+  (forall p, In p news' -> In p L) /\
+  (forall k, In k (keys ren) \/ In k (keys l) -> In k (keys ren')).
+Proof.
+  induction l as [|[k s] r IH]; intros news ren news' ren' Hl Hn Hr H; simpl in H.
+  - inversion H; subst. repeat split; try assumption. intros k [A|[]]. assumption.
+  - assert (Hl' : forall p, In p r -> In p L) by (intros p Hp; apply Hl; right; assumption).
+    destruct (List.find _ news) as [[k0 s0]|] eqn:Ef.
+    + apply find_some in Ef. destruct Ef as [Ef1 Ef2]. simpl in Ef2.
+      apply IH in H; try assumption.
+      * destruct H as [H1 [H2 H3]]. repeat split; try assumption.
+        intros k1 [A|[A|A]]; apply H3.
+        -- left. rewrite keys_app. apply in_or_app. left. assumption.
+        -- left. rewrite keys_app. apply in_or_app. right. left. assumption.
+        -- right. assumption.
+      * intros k1 t Hin. apply in_app_or in Hin. destruct Hin as [Hin|[Hin|[]]]; [apply Hr; assumption|].
+        inversion Hin; subst. exists s, s0. split; [apply Hl; left; reflexivity|]. split; [assumption|].
+        left. assumption.
+    + apply IH in H; try assumption.
+      * destruct H as [H1 [H2 H3]]. repeat split; try assumption.
+        intros k1 [A|[A|A]]; apply H3.
+        -- left. rewrite keys_app. apply in_or_app. left. assumption.
+        -- left. rewrite keys_app. apply in_or_app. right. left. assumption.
+        -- right. assumption.
+      * intros p Hp. apply in_app_or in Hp. destruct Hp as [Hp|[<-|[]]]; [apply Hn; assumption|].
+        apply Hl. left. reflexivity.
+      * intros k1 t Hin. apply in_app_or in Hin. destruct Hin as [Hin|[Hin|[]]].
+        -- destruct (Hr k1 t Hin) as [sk [st [A [B C]]]]. exists sk, st.
+           split; [assumption|]. split; [apply in_or_app; left; assumption|assumption].
+        -- inversion Hin; subst. exists s, s. split; [apply Hl; left; reflexivity|].
+           split; [apply in_or_app; right; left; reflexivity|]. right. split; reflexivity.
+Qed.
+
+(* the helper planes survive de-duplication under their new numbers, and the two numbers
+   stay different as long as the two planes are different surfaces *)
+Lemma helpers_renumbered surfs news ren u0 u1 s0 s1 a b :
+  NoDup (keys surfs) -> In (u0, s0) surfs -> In (u1, s1) surfs -> u0 <> u1 ->
+  eeqb (s_eq s0) (s_eq s1) = false ->
+  (forall x y, eeqb x y = eeqb y x) ->
+  (forall x y z, eeqb x y = true -> eeqb y z = true -> eeqb x z = true) ->
+  remove_duplicate_surfaces eeqb surfs = Ok (news, ren) ->
+  lookup u0 ren = Some a -> lookup u1 ren = Some b ->
+  In a (keys news) /\ In b (keys news) /\ a <> b.
+Proof.
+  intros Hnd H0 H1 Hne Hdiff Hsym Htrans Hd La Lb.
+  unfold remove_duplicate_surfaces in Hd. destruct surfs as [|p0 r0] eqn:ES; [discriminate|].
+  rewrite <- ES in *. inversion Hd as [Hd']. clear Hd.
+  destruct (dedup_go_rel surfs (ksort surfs) [] [] news ren) as [R1 [R2 _]]; try assumption.
+  { intros p Hp. apply (Permutation_in _ (ksort_perm surfs)). assumption. }
+  { intros p []. }
+  { intros k t []. }
+  apply lookup_Some_In in La. apply lookup_Some_In in Lb.
+  destruct (R1 u0 a La) as [sa [ta [A1 [A2 A3]]]]. destruct (R1 u1 b Lb) as [sb [tb [B1 [B2 B3]]]].
+  assert (sa = s0) by (eapply NoDup_keys_unique; eassumption). subst sa.
+  assert (sb = s1) by (eapply NoDup_keys_unique; eassumption). subst sb.
+  split; [eapply in_keys; eassumption|]. split; [eapply in_keys; eassumption|].
+  intros Heq. subst b.
+  assert (ta = tb).
+  { eapply NoDup_keys_unique; [exact Hnd| |]; apply R2; eassumption. }
+  subst tb.
+  destruct A3 as [A3|[A3 A4]]; destruct B3 as [B3|[B3 B4]].
+  - rewrite (Hsym (s_eq s1) (s_eq ta)) in B3. rewrite (Htrans _ _ _ A3 B3) in Hdiff. discriminate.
+  - subst. rewrite A3 in Hdiff. discriminate.
+  - subst. rewrite Hsym, B3 in Hdiff. discriminate.
+  - subst. contradiction.
+Qed.
+
+Lemma dedup_keys_total surfs news ren k :
+  remove_duplicate_surfaces eeqb surfs = Ok (news, ren) -> In k (keys surfs) -> In k (keys ren).
+Proof.
+  unfold remove_duplicate_surfaces. destruct surfs as [|p0 r0] eqn:ES; [discriminate|]. rewrite <- ES.
+  intros H Hk. inversion H as [H'].
+  destruct (dedup_go_rel surfs (ksort surfs) [] [] news ren) as [_ [_ R3]]; try assumption.
+  { intros p Hp. apply (Permutation_in _ (ksort_perm surfs)). assumption. }
+  { intros p []. }
+  { intros k1 t []. }
+  apply R3. right. apply keys_in in Hk. destruct Hk as [s Hk].
+  apply in_keys with (a := s). apply (Permutation_in _ (Permutation_sym (ksort_perm surfs))). assumption.
+Qed.
+
 (* ---- renumber_surfaces ---------------------------------------------------------------- *)
 Lemma renumber_set_spec ren l l' :
   renumber_set ren l = Ok l' -> forall t, In t l' -> exists s, In s l /\ lookup s ren = Some t.
@@ -77,6 +181,28 @@ Proof.
       * destruct (renumber_set_spec _ _ _ Em s Hs) as [s0 [A B]]. exists s0.
         split; [apply in_or_app; right; assumption|assumption].
     + destruct (IH2 k1 v' Hin) as [v1 [A [B C]]]. exists v1. split; [right; assumption|]. split; assumption.
+Qed.
+
+Lemma renumber_set_total ren l :
+  (forall s, In s l -> In s (keys ren)) -> exists l', renumber_set ren l = Ok l'.
+Proof.
+  induction l as [|s r IH]; intros H; simpl; [eexists; reflexivity|].
+  destruct (lookup_in_keys s ren (H s (or_introl eq_refl))) as [t Ht]. rewrite Ht.
+  destruct IH as [r' Hr']; [intros s1 Hs1; apply H; right; assumption|]. rewrite Hr'. eexists. reflexivity.
+Qed.
+
+Lemma renumber_go_total ren vols :
+  (forall k v s, In (k, v) vols -> In s (surface_ids v) -> In s (keys ren)) ->
+  exists vols', renumber_go ren vols = Ok vols'.
+Proof.
+  induction vols as [|[k v] r IH]; intros H; simpl; [eexists; reflexivity|].
+  destruct (renumber_set_total ren (v_plus v)) as [p Hp].
+  { intros s Hs. apply (H k v s (or_introl eq_refl)). unfold surface_ids. apply in_or_app. left. assumption. }
+  destruct (renumber_set_total ren (v_minus v)) as [m Hm].
+  { intros s Hs. apply (H k v s (or_introl eq_refl)). unfold surface_ids. apply in_or_app. right. assumption. }
+  rewrite Hp, Hm. destruct IH as [r' Hr'].
+  { intros k1 v1 s1 Hin. apply (H k1 v1 s1). right. assumption. }
+  rewrite Hr'. eexists. reflexivity.
 Qed.
 
 Lemma dedup_refs_ok surfs vols news ren vols' :
@@ -383,34 +509,78 @@ Proof.
 Qed.
 
 (* ---- the tail of convertMCNPGeometry -------------------------------------------------------------- *)
-(* the union helper planes are still keys of the surface table when
-   remove_empty_volumes may write them into a volume *)
-Definition helpers_survive {E} (eeqb : E -> E -> bool) (skip_dedup : bool) (surfs : stable E) (u0 u1 : Z) : Prop :=
-  if skip_dedup then In u0 (keys surfs) /\ In u1 (keys surfs)
-  else match remove_duplicate_surfaces eeqb surfs with
-       | Ok (news, _) => In u0 (keys news) /\ In u1 (keys news)
-       | Err _ => True
-       end.
+Lemma remove_empty_volumes_terminates vols u0 u1 :
+  exists vols', remove_empty_volumes vols u0 u1 = Some vols'.
+Proof.
+  unfold remove_empty_volumes.
+  destruct (initial_to_remove vols) as [|k tr'] eqn:Etr; [exists vols; reflexivity|].
+  rewrite re_loop_step. rewrite <- Etr.
+  destruct (process_remove (initial_to_remove vols) u0 u1 vols) as [T1 rem] eqn:Ep.
+  destruct (scan (rem ++ []) T1) as [T2 tr2] eqn:Es.
+  destruct (process_remove_spec _ _ _ _ _ _ Ep) as [_ [_ [_ [_ [_ P6]]]]].
+  destruct (scan_spec _ _ _ _ Es) as [_ [_ [S3 S4]]].
+  apply re_loop_fuel; [exact S3|]. lia.
+Qed.
 
-Theorem prune_preserves_wf {E} (eeqb : E -> E -> bool) skip_dedup (surfs : stable E) vols u0 u1 surfs' vols' ren' :
-  refs_ok surfs vols -> u0 <> u1 -> helpers_survive eeqb skip_dedup surfs u0 u1 ->
+Section Tail.
+Context {E : Type}.
+Variable eeqb : E -> E -> bool.
+(* SurfaceT4.__eq__ is symmetric and transitive (numeric equality of tuples) *)
+Hypothesis eeqb_sym : forall x y, eeqb x y = eeqb y x.
+Hypothesis eeqb_trans : forall x y z, eeqb x y = true -> eeqb y z = true -> eeqb x z = true.
+
+(* what construct_volume_t4 guarantees about the two helper planes it inserts: they are
+   entries of the surface dictionary under two different numbers and are different surfaces *)
+Record helpers_ok (surfs : stable E) (u0 u1 : Z) : Prop := mk_helpers_ok {
+  ho_dict : NoDup (keys surfs);
+  ho_0 : exists s0 s1, In (u0, s0) surfs /\ In (u1, s1) surfs /\ eeqb (s_eq s0) (s_eq s1) = false;
+  ho_ne : u0 <> u1 }.
+
+Theorem prune_preserves_wf skip_dedup (surfs : stable E) vols u0 u1 surfs' vols' ren' :
+  refs_ok surfs vols -> helpers_ok surfs u0 u1 ->
   prune eeqb skip_dedup surfs vols u0 u1 = Ok (surfs', vols', ren') ->
   refs_ok surfs' vols' /\ sides_ok vols'.
 Proof.
-  intros Hrefs Hne Hh H. unfold prune in H. unfold helpers_survive in Hh.
-  assert (Hstep : forall s1 v1 (r1 : option (list (Z * Z))), refs_ok s1 v1 -> In u0 (keys s1) -> In u1 (keys s1) ->
-            match remove_empty_volumes v1 u0 u1 with
-            | Some vols2 => Ok (s1, remove_unused_volumes vols2, r1)
+  intros Hrefs [Hnd [s0 [s1 [H0 [H1 Hdiff]]]] Hne] H. unfold prune in H.
+  assert (Hstep : forall s1' v1 (r1 : option (list (Z * Z))) a b, refs_ok s1' v1 ->
+            In a (keys s1') -> In b (keys s1') -> a <> b ->
+            match remove_empty_volumes v1 a b with
+            | Some vols2 => Ok (s1', remove_unused_volumes vols2, r1)
             | None => Err EFuel
             end = Ok (surfs', vols', ren') -> refs_ok surfs' vols' /\ sides_ok vols').
-  { intros s1 v1 r1 R1 A B H1.
-    destruct (remove_empty_volumes_ok s1 v1 u0 u1 R1 A B Hne) as [v2 [E2 [R2 S2]]].
-    rewrite E2 in H1. inversion H1; subst. apply remove_unused_volumes_ok; assumption. }
+  { intros s1' v1 r1 a b R1 A B Hab H1'.
+    destruct (remove_empty_volumes_ok s1' v1 a b R1 A B Hab) as [v2 [E2 [R2 S2]]].
+    rewrite E2 in H1'. inversion H1'; subst. apply remove_unused_volumes_ok; assumption. }
   destruct skip_dedup.
-  - destruct Hh as [A B]. apply (Hstep surfs vols None); assumption.
+  - apply (Hstep surfs vols None u0 u1); try assumption; eapply in_keys; eassumption.
   - destruct (remove_duplicate_surfaces eeqb surfs) as [[news ren]|e] eqn:Ed; [|discriminate].
     destruct (renumber_surfaces vols ren) as [v1|e] eqn:Er; [|discriminate].
-    destruct Hh as [A B]. apply (Hstep news v1 (Some ren)); try assumption.
+    destruct (lookup u0 ren) as [a|] eqn:La; [|discriminate].
+    destruct (lookup u1 ren) as [b|] eqn:Lb; [|discriminate].
+    destruct (helpers_renumbered eeqb surfs news ren u0 u1 s0 s1 a b) as [A [B C]]; try assumption.
+    apply (Hstep news v1 (Some ren) a b); try assumption.
     eapply dedup_refs_ok; eassumption.
 Qed.
 
+(* and the tail never raises on a non-empty volume table *)
+Theorem prune_total skip_dedup (surfs : stable E) vols u0 u1 :
+  refs_ok surfs vols -> helpers_ok surfs u0 u1 -> vols <> [] ->
+  exists r, prune eeqb skip_dedup surfs vols u0 u1 = Ok r.
+Proof.
+  intros [Hk Hs Ho] [Hnd [s0 [s1 [H0 [H1 Hdiff]]]] Hne] Hv. unfold prune.
+  destruct skip_dedup.
+  - destruct (remove_empty_volumes_terminates vols u0 u1) as [v2 ->]. eexists. reflexivity.
+  - destruct surfs as [|p0 r0] eqn:ES; [destruct H0|]. rewrite <- ES in *.
+    destruct (remove_duplicate_surfaces eeqb surfs) as [[news ren]|e] eqn:Ed.
+    2:{ unfold remove_duplicate_surfaces in Ed. rewrite ES in Ed. discriminate. }
+    assert (Hren : exists v1, renumber_surfaces vols ren = Ok v1).
+    { unfold renumber_surfaces. destruct vols as [|q0 vr] eqn:EV; [contradiction|]. rewrite <- EV in *.
+      apply renumber_go_total. intros k v s Hin Hs'. eapply dedup_keys_total; [exact Ed|].
+      eapply Hs; eassumption. }
+    destruct Hren as [v1 ->].
+    destruct (lookup_in_keys u0 ren) as [a ->]; [eapply dedup_keys_total; [exact Ed|eapply in_keys; eassumption]|].
+    destruct (lookup_in_keys u1 ren) as [b ->]; [eapply dedup_keys_total; [exact Ed|eapply in_keys; eassumption]|].
+    destruct (remove_empty_volumes_terminates v1 a b) as [v2 ->]. eexists. reflexivity.
+Qed.
+
+End Tail.
